@@ -30,6 +30,7 @@
 #include <unistd.h>
 #include <cstring>
 #include <memory>
+#include <mutex>
 #include <set>
 
 namespace vs = khizmax_libcds_verif;
@@ -82,32 +83,33 @@ struct ctraits_default : public cc::mspriority_queue::traits {
 template <class Q>
 struct intrusive_adapter {
     Q q;
-    std::vector<std::unique_ptr<Item>> items[9];     // per worker (8 = main); released after the case
-    std::set<Item*> all[9];
+    std::vector<std::unique_ptr<Item>> items;     // every item of the case; released after the case
+    std::set<Item*> all;
+    std::mutex m;                                  // harness bookkeeping only (not an instrumented atomic)
     explicit intrusive_adapter( size_t bufsize ) : q( bufsize ) {}
     bool push( int p, int id )
     {
-        int t = vs::my_tid(); if ( t < 0 || t > 7 ) t = 8;
         Item* x = new Item( p, id );
-        items[t].emplace_back( x );
-        all[t].insert( x );
+        {
+            std::lock_guard<std::mutex> g( m );
+            items.emplace_back( x );
+            all.insert( x );
+        }
         return q.push( *x );
     }
     int pop( int& p, int& id )
     {
         Item* x = q.pop();
         if ( !x ) { p = 0; id = 0; return 0; }
-        bool ours = false;
-        for ( auto const& s : all ) if ( s.count( x )) ours = true;     // read-only while workers run? no: guarded below
-        if ( !ours ) { p = 0; id = 0; return -1; }
+        {
+            std::lock_guard<std::mutex> g( m );
+            if ( !all.count( x )) { p = 0; id = 0; return -1; }
+        }
         p = x->prio; id = x->id;
         return 1;
     }
     size_t size() const { return q.size(); }
 };
-// the sets `all` are written by push() of the owning worker and read by pop() of any worker; only one worker
-// runs at a time under the baton scheduler (and the main thread runs alone), so there is no data race as long
-// as the run did not overrun its step limit; after an overrun the case is abandoned by the check anyway.
 
 template <class Q>
 struct container_adapter {
@@ -159,7 +161,7 @@ static void run_one( vcase::Case const& c, size_t cap )
                 else vcase::emitf( "ret_pop %ld %ld %ld", (long) r, (long) p, (long) id );
             }
         }
-    }, nullptr, nullptr, 20000 );
+    }, nullptr, nullptr, 4000 );     // step limit: checks/C11.py STEP_FUEL
     std::fflush( stdout );
     vcase::print_log( c );
     // monitors (main thread: passes straight through the scheduling points)
